@@ -277,8 +277,10 @@ FromNano(v) == [h |-> v \div 1000, l |-> (v % 1000) * 1000]   \* 10^-9 single ->
 Pot == LSub(Eva.verdunst, Inp.verdunst)                    \* potential ET of the day, 10^-12 cm
 CapCrop == [h |-> 650000, l |-> 0]                         \* 0.65 cm
 CapBare == [h |-> 600000, l |-> 0]                         \* 0.60 cm
-C08_PotCap == AfterEvatra => /\ LGeNeg(Pot, 0)
-                             /\ LLeq(Pot, IF Eva.undercrop THEN CapCrop ELSE CapBare)
+\* (Pot is the difference of the cumulative counter before and after the routine, each projected at 10^-12 cm: the
+\*  rounding of a counter of some 100 cm is allowed for with 10^-10 cm)
+C08_PotCap == AfterEvatra => /\ LGeNeg(Pot, 100)
+                             /\ LLe(LSub(Pot, IF Eva.undercrop THEN CapCrop ELSE CapBare), 100)
 C08_NonNeg == AfterEvatra => Eva.eta >= 0 /\ \A i \in Layers : Eva.TP[i] >= 0
 \* after the clamp to plant-available water (first sub-step): eta + sum of uptake <= potential
 C08_ActualLePot == (AfterSubWater /\ Wat.subd = 1) =>
